@@ -611,7 +611,20 @@ func identsIn(e ast.Node) map[string]bool {
 
 // bodyText renders the callee's body for a statement-context inlining at one
 // site: bindings, body with returns turned into assignments + break.
-func (n *normalizer) bodyText(c *callee, call *ast.CallExpr, tag string) (text string, results []string, ok bool) {
+// condMode asks bodyText to render a bool helper for an if condition: every
+// `return E` becomes `if E { goto T }; goto F` (labels swapped for a negated
+// condition), so that the caller's branch depends directly on E instead of on
+// a result variable merged from several returns.
+type condMode struct {
+	negated      bool
+	usedT, usedF bool
+}
+
+func (n *normalizer) bodyText(c *callee, call *ast.CallExpr, tag string, cm ...*condMode) (text string, results []string, ok bool) {
+	var cond *condMode
+	if len(cm) == 1 {
+		cond = cm[0]
+	}
 	fs, fd := n.freshDecl(c)
 	if fd == nil {
 		return dbgFail(1)
@@ -624,10 +637,14 @@ func (n *normalizer) bodyText(c *callee, call *ast.CallExpr, tag string) (text s
 		results = append(results, fmt.Sprintf("_%s_r%d", tag, i))
 	}
 	var b strings.Builder
-	for i, r := range res {
-		fmt.Fprintf(&b, "var %s %s\n_ = %s\n", results[i], r.typ, results[i])
+	if cond != nil {
+		b.WriteString("{\n")
+	} else {
+		for i, r := range res {
+			fmt.Fprintf(&b, "var %s %s\n_ = %s\n", results[i], r.typ, results[i])
+		}
+		fmt.Fprintf(&b, "_%s:\nfor {\n", tag)
 	}
-	fmt.Fprintf(&b, "_%s:\nfor {\n", tag)
 	// names bound so far must not occur in later argument or type texts
 	bound := map[string]bool{}
 	checkFree := func(e ast.Node, typ string) bool {
@@ -776,6 +793,48 @@ func (n *normalizer) bodyText(c *callee, call *ast.CallExpr, tag string) (text s
 			case *ast.ReturnStmt:
 				var t strings.Builder
 				t.WriteString("{\n")
+				if cond != nil {
+					if len(x.Results) != 1 {
+						failed = true
+						return false
+					}
+					lt, lf := "_"+tag+"_t", "_"+tag+"_f"
+					if cond.negated {
+						lt, lf = lf, lt
+					}
+					mark := func(l string) {
+						if l == "_"+tag+"_t" {
+							cond.usedT = true
+						} else {
+							cond.usedF = true
+						}
+					}
+					e := printNode(fs, x.Results[0])
+					d := activeAt(idx)
+					switch {
+					case e == "true":
+						t.WriteString(d)
+						fmt.Fprintf(&t, "goto %s\n}", lt)
+						mark(lt)
+					case e == "false":
+						t.WriteString(d)
+						fmt.Fprintf(&t, "goto %s\n}", lf)
+						mark(lf)
+					case d == "":
+						fmt.Fprintf(&t, "if %s {\ngoto %s\n}\ngoto %s\n}", e, lt, lf)
+						mark(lt)
+						mark(lf)
+					default:
+						fmt.Fprintf(&t, "_%s_c := %s\n%sif _%s_c {\ngoto %s\n}\ngoto %s\n}", tag, e, d, tag, lt, lf)
+						mark(lt)
+						mark(lf)
+					}
+					retSeq++
+					marker := fmt.Sprintf("_%s_ret%d_()", tag, retSeq)
+					repls = append(repls, repl{marker, t.String()})
+					cur.Replace(&ast.ExprStmt{X: &ast.Ident{Name: marker}})
+					return true
+				}
 				if len(results) > 0 {
 					var rhs []string
 					for _, e := range x.Results {
@@ -814,9 +873,50 @@ func (n *normalizer) bodyText(c *callee, call *ast.CallExpr, tag string) (text s
 	}
 	b.WriteString(body)
 	b.WriteString("\n")
+	if cond != nil {
+		b.WriteString("}\n")
+		return b.String(), nil, true
+	}
 	b.WriteString(activeAt(len(fd.Body.List)))
 	fmt.Fprintf(&b, "break _%s\n}\n", tag)
 	return b.String(), results, true
+}
+
+// condSite recognises `if f(args) {S} else {T}` / `if !f(args) ...` for a
+// helper with a single bool result, the if statement standing in a statement
+// list or in else position.
+func condSite(path []ast.Node, call *ast.CallExpr) (*ast.IfStmt, bool) {
+	neg := false
+	var child ast.Node = call
+	for i := 1; i < len(path); i++ {
+		switch p := path[i].(type) {
+		case *ast.ParenExpr:
+		case *ast.UnaryExpr:
+			if p.Op != token.NOT {
+				return nil, false
+			}
+			neg = !neg
+		case *ast.IfStmt:
+			if ast.Node(p.Cond) != child || p.Init != nil || i+1 >= len(path) {
+				return nil, false
+			}
+			switch up := path[i+1].(type) {
+			case *ast.BlockStmt:
+			case *ast.CaseClause, *ast.CommClause:
+			case *ast.IfStmt:
+				if up.Else != ast.Stmt(p) {
+					return nil, false
+				}
+			default:
+				return nil, false
+			}
+			return p, neg
+		default:
+			return nil, false
+		}
+		child = path[i]
+	}
+	return nil, false
 }
 
 // litText renders `go f(args)` / `defer f(args)` of a new helper as the call
@@ -1395,6 +1495,36 @@ func (n *normalizer) inlineRound() bool {
 				changed = true
 				continue
 			}
+			if ifs, neg := condSite(s.path, s.call); ifs != nil && !usedStmt[ifs] && isBoolResult(c.fn) {
+				n.seq++
+				tag := fmt.Sprintf("inl%d", n.seq)
+				cm := &condMode{negated: neg}
+				if body, _, ok := n.bodyText(c, s.call, tag, cm); ok {
+					fname := n.fset.File(ifs.Pos()).Name()
+					calleeFile := n.fset.File(c.decl.Pos()).Name()
+					var b strings.Builder
+					fmt.Fprintf(&b, "{\n//line %s:%d\n", calleeFile, n.fset.PositionFor(c.decl.Body.Lbrace, false).Line)
+					b.WriteString(body)
+					if cm.usedT {
+						fmt.Fprintf(&b, "_%s_t:\n", tag)
+					}
+					fmt.Fprintf(&b, "//line %s:%d\n%s\n", fname, n.fset.PositionFor(ifs.Body.Pos(), false).Line, n.exprText(ifs.Body))
+					fmt.Fprintf(&b, "goto _%s_e\n", tag)
+					if cm.usedF {
+						fmt.Fprintf(&b, "_%s_f:\n", tag)
+					}
+					if ifs.Else != nil {
+						fmt.Fprintf(&b, "//line %s:%d\n%s\n", fname, n.fset.PositionFor(ifs.Else.Pos(), false).Line, n.exprText(ifs.Else))
+					}
+					fmt.Fprintf(&b, "_%s_e:\n//line %s:%d\n}", tag, fname, n.fset.PositionFor(ifs.End(), false).Line)
+					if n.tryEdit(ifs.Pos(), ifs.End(), b.String()) {
+						usedStmt[ifs] = true
+						done++
+						changed = true
+						continue
+					}
+				}
+			}
 			kind, stmt, nested := stmtContext(s.path, s.call)
 			if kind == "" {
 				// right operand of && / || in an if condition: split the if first
@@ -1563,4 +1693,13 @@ func dbgFail(k int) (string, []string, bool) {
 		fmt.Fprintf(os.Stderr, "normalise: bodyText gave up at point %d\n", k)
 	}
 	return "", nil, false
+}
+
+func isBoolResult(fn *types.Func) bool {
+	sig := fn.Type().(*types.Signature)
+	if sig.Results().Len() != 1 {
+		return false
+	}
+	b, ok := sig.Results().At(0).Type().Underlying().(*types.Basic)
+	return ok && b.Kind() == types.Bool
 }
